@@ -820,12 +820,17 @@ impl<'a> Em<'a> {
     }
 
     /// the decoded content of an object stream: index block, padding, members
-    fn objstm_content(&self, members: &[(u32, MObj)], lengths: &BTreeSet<u32>) -> (Vec<u8>, usize, Vec<usize>) {
+    fn objstm_content(&self, members: &[(u32, MObj)], lengths: &BTreeSet<u32>, duplicate: Option<(usize, usize)>) -> (Vec<u8>, usize, Vec<usize>) {
         let seps: [&[u8]; 6] = [b" ", b"\n", b"\r", b"  ", b"\r\n", b" \n "];
         let sep = |v: &mut Vec<u8>| v.extend_from_slice(seps[self.d(6, "objstm-sep")]);
         let (mut objs, mut index) = (Vec::new(), Vec::new());
         let mut offsets = Vec::new();
-        for (num, o) in members {
+        for (k, (num, o)) in members.iter().enumerate() {
+            // deliberately invalid (see `misdesignate`): member `k` is listed under the number of member `j`
+            let listed = match duplicate {
+                Some((kk, j)) if kk == k => members[j].0,
+                _ => *num,
+            };
             let mut e = self.sub();
             match o {
                 // an integer that is some stream's Length: now and then zero-padded to seven digits (legal;
@@ -838,7 +843,7 @@ impl<'a> Em<'a> {
             }
             // the offset designates the first byte of the object itself
             let start = e.first_tok.unwrap();
-            index.extend_from_slice(num.to_string().as_bytes());
+            index.extend_from_slice(listed.to_string().as_bytes());
             sep(&mut index);
             index.extend_from_slice(objs.len().to_string().as_bytes());
             offsets.push(objs.len());
@@ -1008,7 +1013,8 @@ pub fn write_history_on(ctx: &Ctx, seed: Option<&Seed>, revisions: &[Revision], 
                 plain.push((*id, o.clone()));
             } else {
                 let dup = ever_compressed.contains(&id.0);
-                let want = can_compress && id.1 == 0 && e.p([0, 500, 650], "compress");
+                // (the "inflates to hundreds of times the file size" class keeps everything it can in object streams)
+                let want = can_compress && id.1 == 0 && (e.p([0, 500, 650], "compress") || opts.force_structural_zlib);
                 if want && !(dup && avoid & AVOID_DUP_IN_OBJSTM != 0) {
                     members.push((id.0, o.clone()));
                 } else {
@@ -1088,7 +1094,18 @@ pub fn write_history_on(ctx: &Ctx, seed: Option<&Seed>, revisions: &[Revision], 
                     ents.insert(id.0, Ent::Used((at - base) as u64, id.1));
                 }
                 Item::Container(cid, group) => {
-                    let (mut content, first, member_offsets) = e.objstm_content(group, &compressed_length_objs);
+                    let (mut content, first, member_offsets) = {
+                        // deliberately invalid: the index of a container lists one number twice
+                        let dup = if opts.misdesignate && group.len() >= 2 && e.d(3, "objstm-duplicate-number") == 2 {
+                            ctx.count("objstm-index-duplicate-number");
+                            let k = e.d(group.len() as u64, "objstm-dup-k");
+                            let j = (k + 1 + e.d(group.len() as u64 - 1, "objstm-dup-j")) % group.len();
+                            Some((k, j))
+                        } else {
+                            None
+                        };
+                        e.objstm_content(group, &compressed_length_objs, dup)
+                    };
                     let mut d: MDict = vec![
                         (b"Type".to_vec(), MObj::Name(b"ObjStm".to_vec())),
                         (b"N".to_vec(), int(group.len() as u64)),
